@@ -171,6 +171,39 @@ def c06(tier, seed, case=None):
     return v
 
 
+# --------------------------------------------------------------------------------------- C09
+def c09(tier, seed, case=None):
+    n = 6 if tier == 'quick' else 8
+    v = _mk('C09', tier, seed, 'exploration',
+            'ALL words over {write a, write b, finalize} of length <= %d, for each of the 13 types (a, b of different sizes), with and '
+            'without an index destination, three endings (drop; finalize then drop; consumption by write_shapes([a,b])); after every '
+            'finalize the images and op logs of the instrumented destinations are inspected (complete file, last op is a flush, no I/O '
+            'when nothing is new); final bytes are compared with the reference history "same writes, then drop"; a sample of the words '
+            'also runs through from_path with the files read back while the writer is alive. distinct = histories (type, index, word, '
+            'ending); all non-trivial' % n, exhaustive=True)
+    for prof in _profiles(tier):
+        v.add_run(run_engine('C09', 'c09', prof, tier, seed, case=case))
+    if tier == 'thorough' and not case:
+        v.add_run(run_miri('C09', 'c09', tier, seed))
+    v.extra['exhaustive_scope'] = 'all words of length <= %d over {Wa, Wb, F} x 13 types x {index, no index} x 3 endings; shapes a, b are fixed per type' % n
+    return v
+
+
+# --------------------------------------------------------------------------------------- C10
+def c10(tier, seed, case=None):
+    n = 5 if tier == 'quick' else 7
+    v = _mk('C10', tier, seed, 'exploration',
+            'ALL 13 x 12 ordered pairs of distinct types (first type, offered type) x ALL words of length <= %d over {write T, write U, '
+            'finalize} in which some write is rejected, through ShapeWriter (shp+shx) and through the complete Writer (shp+shx+dbf; '
+            'alphabet without finalize); monitor: error fields, zero operations on any destination during the epoch of a rejected call, '
+            'final bytes equal to the same history with the rejected calls deleted (dbf date masked). distinct = (T, U, writer, word); '
+            'all non-trivial' % n, exhaustive=True)
+    for prof in _profiles(tier):
+        v.add_run(run_engine('C10', 'c10', prof, tier, seed, case=case))
+    v.extra['exhaustive_scope'] = 'all ordered type pairs x all words of length <= %d containing a rejected write' % n
+    return v
+
+
 # --------------------------------------------------------------------------------------- C14
 def c14(tier, seed, case=None):
     import os
@@ -244,4 +277,4 @@ def c19(tier, seed, case=None):
     return v
 
 
-PLANS = {'C14': c14, 'C03': c03, 'C02': c02, 'C04': c04, 'C01': c01, 'C05': c05, 'C06': c06, 'C16': c16, 'C18': c18, 'C19': c19}
+PLANS = {'C09': c09, 'C10': c10, 'C14': c14, 'C03': c03, 'C02': c02, 'C04': c04, 'C01': c01, 'C05': c05, 'C06': c06, 'C16': c16, 'C18': c18, 'C19': c19}
